@@ -80,7 +80,7 @@ impl ZeroCopyEntry {
 
     /// Create a slice view of the data (zero-copy)
     pub fn slice(&self, range: Range<usize>) -> Option<ZeroCopySlice> {
-        if range.end <= self.data.len() {
+        if range.start <= range.end && range.end <= self.data.len() {
             Some(ZeroCopySlice {
                 data: self.data.slice(range.clone()),
                 parent_ref: Arc::clone(&self.ref_count),
